@@ -215,3 +215,7 @@ def _r20_5(ctx):
   from ..panics import run_inventory
   from ..tables.sites_C20 import TABLE
   run_inventory(ctx, 'R20.5', ['ord::wallet::transaction_builder::TransactionBuilder::select_outgoing'], TABLE, partition=(16 if ctx.tier == 'thorough' else 1), floor_fns=1, floor_sites=2, label='select_outgoing')
+
+
+# sensitivity pack (thorough tier): each seeded edit must be reported by the named rule instance
+MUTANTS = [{'name': 'amount-minus-one-again', 'file': 'src/wallet/transaction_builder.rs', 'old': 'amount.saturating_sub(1)', 'new': 'amount - 1', 'expect': ('R20.5', 'select_outgoing', 'arith:Sub(')}]
